@@ -571,8 +571,11 @@ func init() {
 		old(c)
 		c20literalExact(c)
 		c20reinitPerFile(c)
+		c20clusterWindowTruncates(c)
+		c20hashPerColumn(c)
 	}
-	All["C20"].Rules += " R7 R8"
+	All["C20"].Rules += " R7 R8 R9 R10"
+	addLevel("C20", "the reader-side time-cluster window rounds like the writer (toward zero: t - t%w), so the condition on the clustered time column never excludes the cluster that holds rows of the range; the multi-column line bloom reader derives the hashes of a MATCHPHRASE atom from the split table of the atom's own column.")
 }
 
 // c20literalExact — C20.R7.  The primary-key condition compares fragment key ranges with the
@@ -667,4 +670,70 @@ func c20reinitPerFile(c *an.Ctx) {
 	}
 	r.AddSites(n)
 	r.Floor(3, "filter reader creations in ReInit")
+}
+
+// c20clusterWindowTruncates — C20.R9.  With a time-cluster index the writer stores, per row, the
+// cluster start time.Duration(t).Truncate(d) — rounding TOWARD ZERO.  The reader turns the query's
+// time range into a condition on that column with window(t, d); it must round the same way.  A
+// floor for negative t makes `clustered_time <= window(max)` exclude the cluster that holds rows
+// up to max (pre-epoch data), and the primary-key scan prunes their fragments.
+func c20clusterWindowTruncates(c *an.Ctx) {
+	const X = "engine/executor"
+	r := c.Rule("C20.R9", "K-CONTRACT(writer/reader)", X+":window — the time-cluster window start is t - t%w (rounding toward zero, like the writer's Duration.Truncate)")
+	f := fn(r, X+":window")
+	if f == nil {
+		return
+	}
+	n := 0
+	for _, s := range f.Find(an.AnyReturn()).List {
+		rs := s.Node.(*ast.ReturnStmt)
+		if len(rs.Results) != 1 {
+			continue
+		}
+		n++
+		switch cs := f.Canon(rs.Results[0]); cs {
+		case "p0", "(p0-(p0%p1))":
+		default:
+			r.Fail(f.Name+": rounding", c.P.Pos(rs.Pos()), "window returns %s: the writer clusters rows with Duration.Truncate (toward zero); another rounding makes the range condition miss the cluster that holds the boundary rows", cs)
+		}
+	}
+	r.AddSites(n)
+	r.Floor(2, "returns of window()")
+}
+
+// c20hashPerColumn — C20.R10.  The line bloom-filter reader serves several indexed columns, each
+// with its own token split table and its own filter.  The hashes probed for `col MATCHPHRASE 'x'`
+// are computed with col's split table; a cache keyed by the phrase alone answers the atom of one
+// column from another column's tokens — `a MATCHPHRASE 'x' OR b MATCHPHRASE 'x'` prunes a block in
+// which only b holds x.
+func c20hashPerColumn(c *an.Ctx) {
+	const B = "engine/index/bloomfilter"
+	r := c.Rule("C20.R10", "K-PROVENANCE", B+":(*LineFilterReader).hitExpr — the hashes of a MATCHPHRASE atom are derived from the split table of the atom's column")
+	f := fn(r, B+":LineFilterReader.hitExpr")
+	if f == nil {
+		return
+	}
+	perColumn, byPhrase := 0, 0
+	ast.Inspect(f.Body, func(m ast.Node) bool {
+		ix, ok := m.(*ast.IndexExpr)
+		if !ok {
+			return true
+		}
+		base := f.Canon(ix.X)
+		key := f.Canon(ix.Index)
+		switch {
+		case base == "recv.splitMap" && strings.Contains(key, ".LHS."):
+			perColumn++
+		case base == "recv.hashes" && !strings.Contains(key, ".LHS."):
+			byPhrase++
+		}
+		return true
+	})
+	r.AddSites(perColumn + byPhrase)
+	if perColumn == 0 {
+		r.Fail(f.Name+": split table of the column", c.P.Pos(f.Body.Pos()), "hitExpr no longer looks up the split table of the atom's column (splitMap[<LHS column>])")
+	}
+	if byPhrase > 0 {
+		r.Fail(f.Name+": hashes keyed by the phrase", c.P.Pos(f.Body.Pos()), "hitExpr takes the hashes of an atom from a table keyed by the phrase alone: with two indexed columns the atom of one column is answered from the other column's tokens")
+	}
 }
